@@ -8,7 +8,7 @@ CLASSES = ['N', 'T', 'F', 'I0', 'I1', 'I-1', 'I7fffffffffffffff', 'I800000000000
            'S-', 'S61', 'Sc3a9e697a5', 'S' + ('c3a9' * 40), 'S' + ('61' * 80), 'S302e35', 'S3132',
            'B-', 'B1', 'B10100101', 'B1010010110', 'B' + '10' * 70,
            'V()', 'V(I1,I2,I3)', 'V(V(V(I1)))', 'V(S61,N,B1)', 'M()', 'M(I1=I2)', 'M(S61=V(I1))',
-           'G(I5,M(S6b=I1))', 'G(S3132,M(S23666d74=I63))', 'G(I5,M(S23666d74=I0))', 'G(I-1,M(S23666d74=I110))', 'G(V(I1),M(S23666d74=Iffffffffffffffff))',
+           'G(I5,M(S6b=I1))', 'G(I0,M(S6b=I1))', 'G(R0000000000000000,M(S6b=I1))', 'G(B-,M(S6b=I1))', 'G(V(),M(S6b=I1))', 'G(S3132,M(S23666d74=I63))', 'G(I5,M(S23666d74=I0))', 'G(I-1,M(S23666d74=I110))', 'G(V(I1),M(S23666d74=Iffffffffffffffff))',
            'G(S3132,M(S23666d74=I1))', 'G(I1,M(S23666d74=S78))']
 SMALL_ONLY = {'int!', 'uint!', 'random-bits', 'float!', 'float', '>b', '>kb', '>mb'}       # size arguments that allocate
 SOUP_SKIP = {'write-all', 'read-all', 'exec-piped', 'include', 'require', 'random', 'random-bits', 'exit'}
